@@ -1,10 +1,558 @@
-use engine::Args;
-use serde_json::Value;
+//! C30 — a healthy cluster elects exactly one leader and replicates.
+//!
+//! The fault-free reachable graph is built explicitly: in every state any
+//! in-flight message may be delivered (all delivery orders), any node whose
+//! `process()` is due may run it, the clock advances one quantum only when
+//! the network is empty and no `process()` is due ("all messages delivered,
+//! timers as configured"), and a client may append at the leader while the
+//! append budget lasts (only when exactly one node is in state Leader).
+//! Start states: the initial state and every post-partition state
+//! (`default* Isolate(i) default* [Append default*] Heal`).
+//! GOAL = exactly one leader and every value appended since the start state
+//! is committed, as the leader's entry, on every node.
+//! Property: every infinite path visits GOAL again and again: the subgraph of
+//! non-GOAL states has no cycle, no state beyond the term cap, and GOAL is
+//! only left by a client append.
 
-pub fn run(_args: &Args) -> i32 {
-    engine::machinery_failure("C30 not implemented yet")
+use crate::explore::Witness;
+use crate::sched::default_event;
+use crate::world::*;
+use engine::{Args, Report, Tier};
+use serde_json::{Value, json};
+use std::collections::HashMap;
+
+struct Cfg {
+    max_appends: u8,
+    partition_appends: u8,
+    term_slack: u64,
+    state_cap: usize,
+    /// may a client append while an earlier append is not yet committed everywhere?
+    overlapping_appends: bool,
+    /// partitions start and heal only when no message is in flight
+    quiescent_partition_points: bool,
 }
 
-pub fn replay(_args: &Args, _r: &Value) -> i32 {
-    engine::machinery_failure("C30 replay not implemented yet")
+fn cfg(tier: Tier) -> Cfg {
+    let env = |k: &str, d: u64| std::env::var(k).ok().and_then(|s| s.parse().ok()).unwrap_or(d);
+    match tier {
+        Tier::Quick => Cfg { max_appends: env("VERIF_C30_APPENDS", 2) as u8, partition_appends: env("VERIF_C30_PAPPENDS", 1) as u8, term_slack: env("VERIF_C30_TERMS", 5), state_cap: env("VERIF_C30_CAP", 6_000_000) as usize, overlapping_appends: env("VERIF_C30_OVERLAP", 0) != 0, quiescent_partition_points: env("VERIF_C30_QUIESCENT", 1) != 0 },
+        Tier::Thorough => Cfg { max_appends: env("VERIF_C30_APPENDS", 3) as u8, partition_appends: env("VERIF_C30_PAPPENDS", 2) as u8, term_slack: env("VERIF_C30_TERMS", 6), state_cap: env("VERIF_C30_CAP", 60_000_000) as usize, overlapping_appends: env("VERIF_C30_OVERLAP", 0) != 0, quiescent_partition_points: env("VERIF_C30_QUIESCENT", 0) != 0 },
+    }
+}
+
+#[derive(Clone)]
+struct Start {
+    /// concrete FIFO-regime events from the initial state
+    base: Vec<Event>,
+    world: World,
+    partitioned: bool,
+}
+
+fn max_term(w: &World) -> u64 {
+    (0..N).map(|i| w.nodes[i].v_term()).max().unwrap()
+}
+
+/// GOAL, and if not: why not (for the classification of a cycle)
+fn goal(w: &World, base_appends: u8) -> Result<(), &'static str> {
+    let leaders = w.leaders();
+    if leaders.is_empty() {
+        return Err("no-leader");
+    }
+    if leaders.len() > 1 {
+        return Err("several-leaders");
+    }
+    let l = leaders[0];
+    for d in base_appends + 1..=w.appends {
+        let Some(le) = w.nodes[l].storage.entries.iter().find(|e| e.data == d) else { return Err("entry-lost-at-leader") };
+        for i in 0..N {
+            let ok = w.nodes[i].storage.entries.iter().any(|e| e.data == d && e.index == le.index && e.term == le.term && e.committed);
+            if !ok {
+                return Err("entry-not-committed-everywhere");
+            }
+        }
+    }
+    Ok(())
+}
+
+fn enabled(w: &World, base_appends: u8, c: &Cfg) -> Vec<Event> {
+    let mut evs = vec![];
+    for k in 0..w.net.len() {
+        if k > 0 && w.net[k].enc == w.net[k - 1].enc {
+            continue;
+        }
+        evs.push(Event::Deliver(k as u8));
+    }
+    let mut due = false;
+    for i in 0..N {
+        if w.proc_effective(i) {
+            evs.push(Event::Proc(i as u8));
+            due = true;
+        }
+    }
+    if w.net.is_empty() && !due {
+        evs.push(Event::Tick);
+    }
+    let leaders = w.leaders();
+    if leaders.len() == 1 && w.appends - base_appends < c.max_appends {
+        // the client writes once leadership is established: every other node follows this leader
+        let l = leaders[0];
+        let all_follow = (0..N).all(|i| i == l || w.nodes[i].v_state() == (crate::raft::V_FOLLOWER, l as u64));
+        let overlapping = w.appends > base_appends && goal(w, base_appends).is_err();
+        if all_follow && (!overlapping || c.overlapping_appends) {
+            evs.push(Event::Append(l as u8));
+        }
+    }
+    evs
+}
+
+/// walk the default schedule from `w`, calling `f` on every new state, until a state repeats
+fn walk_default(mut w: World, mut evs: Vec<Event>, seen: &mut HashMap<u128, ()>, term_cap: u64, f: &mut dyn FnMut(&World, &Vec<Event>)) {
+    let mut n = 0;
+    loop {
+        let h = w.hash(false);
+        if seen.insert(h, ()).is_some() {
+            return;
+        }
+        f(&w, &evs);
+        if max_term(&w) > term_cap {
+            return;
+        }
+        let ev = default_event(&w);
+        w.apply(ev).unwrap();
+        evs.push(ev);
+        n += 1;
+        if n > 5000 {
+            engine::machinery_failure("C30: default schedule does not reach a known state within 5000 steps");
+        }
+    }
+}
+
+fn start_states(c: &Cfg) -> Vec<Start> {
+    let mut starts = vec![Start { base: vec![], world: World::new(false), partitioned: false }];
+    // layer A: states of the fault-free default run
+    let mut a: Vec<(World, Vec<Event>)> = vec![];
+    let mut seen_a = HashMap::new();
+    walk_default(World::new(false), vec![], &mut seen_a, 8, &mut |w, e| a.push((w.clone(), e.clone())));
+    // layer B: partitioned states; layer C: partitioned states after client appends at a leader
+    let mut seen_b = HashMap::new();
+    let mut b: Vec<(World, Vec<Event>)> = vec![];
+    for (w, e) in &a {
+        if c.quiescent_partition_points && !w.net.is_empty() {
+            continue;
+        }
+        for i in 0..N {
+            let mut w2 = w.clone();
+            w2.apply(Event::Isolate(i as u8)).unwrap();
+            let mut e2 = e.clone();
+            e2.push(Event::Isolate(i as u8));
+            walk_default(w2, e2, &mut seen_b, 8, &mut |w, e| b.push((w.clone(), e.clone())));
+        }
+    }
+    let mut layers = vec![b];
+    for _ in 0..c.partition_appends {
+        let mut next: Vec<(World, Vec<Event>)> = vec![];
+        for (w, e) in layers.last().unwrap() {
+            for l in w.leaders() {
+                let mut w2 = w.clone();
+                w2.apply(Event::Append(l as u8)).unwrap();
+                let mut e2 = e.clone();
+                e2.push(Event::Append(l as u8));
+                walk_default(w2, e2, &mut seen_b, 8, &mut |w, e| next.push((w.clone(), e.clone())));
+            }
+        }
+        layers.push(next);
+    }
+    let mut seen_s: HashMap<u128, ()> = HashMap::new();
+    for layer in &layers {
+        for (w, e) in layer {
+            if c.quiescent_partition_points && !(w.net.is_empty() && w.delayed.is_empty()) {
+                continue;
+            }
+            let mut w2 = w.clone();
+            w2.apply(Event::Heal).unwrap();
+            let mut e2 = e.clone();
+            e2.push(Event::Heal);
+            let mut m = w2.clone();
+            m.multiset = true;
+            m.net.sort_by(|a, b| a.enc.cmp(&b.enc));
+            if seen_s.insert(m.hash(false), ()).is_none() {
+                starts.push(Start { base: e2, world: w2, partitioned: true });
+            }
+        }
+    }
+    starts
+}
+
+struct NodeRec {
+    parent: u32,
+    ev: Event,
+    root: u32,
+    goal: bool,
+    why: &'static str,
+    capped: bool,
+    succ: Vec<(u32, Event)>,
+}
+
+struct Graph {
+    nodes: Vec<NodeRec>,
+    transitions: u64,
+    capped: bool,
+}
+
+fn gkey(w: &World, base_appends: u8) -> u128 {
+    let mut k = w.key(false);
+    k.push(base_appends);
+    hash128(&k)
+}
+
+fn build(starts: &[Start], c: &Cfg) -> Graph {
+    let mut index: HashMap<u128, u32> = HashMap::new();
+    let mut g = Graph { nodes: vec![], transitions: 0, capped: false };
+    let mut queue: std::collections::VecDeque<(u32, World, u8, u64)> = Default::default();
+    for (ri, s) in starts.iter().enumerate() {
+        let mut w = s.world.clone();
+        w.multiset = true;
+        w.net.sort_by(|a, b| a.enc.cmp(&b.enc));
+        w.ghost = Ghost::default();
+        let ba = w.appends;
+        let h = gkey(&w, ba);
+        if index.contains_key(&h) {
+            continue;
+        }
+        let id = g.nodes.len() as u32;
+        index.insert(h, id);
+        let gl = goal(&w, ba);
+        g.nodes.push(NodeRec { parent: u32::MAX, ev: Event::Tick, root: ri as u32, goal: gl.is_ok(), why: gl.err().unwrap_or(""), capped: false, succ: vec![] });
+        let cap = max_term(&w) + c.term_slack;
+        queue.push_back((id, w, ba, cap));
+    }
+    let dbg = std::env::var("VERIF_RAFT_DEBUG").is_ok();
+    let mut hist: std::collections::BTreeMap<(u8, u64, usize), u64> = Default::default();
+    while let Some((id, w, ba, cap)) = queue.pop_front() {
+        if dbg {
+            *hist.entry((w.appends, w.now / 2000, w.net.len())).or_insert(0) += 1;
+        }
+        if max_term(&w) > cap {
+            g.nodes[id as usize].capped = true;
+            continue;
+        }
+        if g.nodes.len() > c.state_cap {
+            g.capped = true;
+            break;
+        }
+        for ev in enabled(&w, ba, c) {
+            let mut w2 = w.clone();
+            w2.apply(ev).unwrap_or_else(|e| panic!("HARNESS: C30 event {} refused: {e}", ev.to_text()));
+            w2.ghost = Ghost::default();
+            g.transitions += 1;
+            let h = gkey(&w2, ba);
+            let tid = match index.get(&h) {
+                Some(t) => *t,
+                None => {
+                    let t = g.nodes.len() as u32;
+                    index.insert(h, t);
+                    let gl = goal(&w2, ba);
+                    let root = g.nodes[id as usize].root;
+                    g.nodes.push(NodeRec { parent: id, ev, root, goal: gl.is_ok(), why: gl.err().unwrap_or(""), capped: false, succ: vec![] });
+                    queue.push_back((t, w2, ba, cap));
+                    t
+                }
+            };
+            g.nodes[id as usize].succ.push((tid, ev));
+        }
+    }
+    if dbg {
+        let mut by_time: std::collections::BTreeMap<(u8, u64), u64> = Default::default();
+        let mut by_net: std::collections::BTreeMap<usize, u64> = Default::default();
+        for ((a, t, n), c) in &hist {
+            *by_time.entry((*a, *t)).or_insert(0) += c;
+            *by_net.entry(*n).or_insert(0) += c;
+        }
+        eprintln!("by (appends, time/2s): {by_time:?}");
+        eprintln!("by net len: {by_net:?}");
+    }
+    g
+}
+
+fn path_to(g: &Graph, mut id: u32) -> (u32, Vec<Event>) {
+    let mut evs = vec![];
+    while g.nodes[id as usize].parent != u32::MAX {
+        evs.push(g.nodes[id as usize].ev);
+        id = g.nodes[id as usize].parent;
+    }
+    evs.reverse();
+    (g.nodes[id as usize].root, evs)
+}
+
+struct Case {
+    signature: String,
+    what: String,
+    root: u32,
+    stem: Vec<Event>,
+    cycle: Vec<Event>,
+    kind: &'static str,
+}
+
+#[derive(Default)]
+struct Cases {
+    best: std::collections::BTreeMap<String, (Case, u64)>,
+}
+
+impl Cases {
+    fn push(&mut self, c: Case) {
+        match self.best.get_mut(&c.signature) {
+            None => {
+                self.best.insert(c.signature.clone(), (c, 1));
+            }
+            Some(e) => {
+                e.1 += 1;
+                if c.stem.len() + c.cycle.len() < e.0.stem.len() + e.0.cycle.len() {
+                    e.0 = c;
+                }
+            }
+        }
+    }
+}
+
+fn analyse(g: &Graph, starts: &[Start]) -> (Cases, u64, u64, u64) {
+    let n = g.nodes.len();
+    let mut cases = Cases::default();
+    let from = |root: u32| if starts[root as usize].partitioned { "post-partition" } else { "initial" };
+    // (b) term cap, (c) goal left without an append
+    let mut goal_entries = 0u64;
+    for (id, nd) in g.nodes.iter().enumerate() {
+        if nd.capped && !nd.goal {
+            let (root, stem) = path_to(g, id as u32);
+            cases.push(Case { signature: format!("elections-do-not-settle|{}|from={}", nd.why, from(root)), what: format!("a fault-free schedule from the {} state drives the terms beyond the cap without reaching the goal ({})", from(root), nd.why), root, stem, cycle: vec![], kind: "term-cap" });
+        }
+        for (t, ev) in &nd.succ {
+            let tn = &g.nodes[*t as usize];
+            if !nd.goal && tn.goal {
+                goal_entries += 1;
+            }
+            if nd.goal && !tn.goal && !matches!(ev, Event::Append(_)) {
+                let (root, mut stem) = path_to(g, id as u32);
+                stem.push(*ev);
+                cases.push(Case { signature: format!("goal-left-without-fault|{}|from={}", tn.why, from(root)), what: format!("from a state with one leader and everything committed, the fault-free step {} leads to a state with {}", ev.to_text(), tn.why), root, stem, cycle: vec![], kind: "goal-left" });
+            }
+        }
+    }
+    // (a) cycles among non-goal states: iterative DFS with colours
+    let mut colour = vec![0u8; n];
+    let mut longest = vec![0u32; n]; // longest path (steps) to leave the non-goal subgraph
+    for s in 0..n {
+        if colour[s] != 0 || g.nodes[s].goal {
+            continue;
+        }
+        let mut stack: Vec<(u32, usize)> = vec![(s as u32, 0)];
+        colour[s] = 1;
+        while let Some(&mut (u, ref mut k)) = stack.last_mut() {
+            let nd = &g.nodes[u as usize];
+            if *k < nd.succ.len() {
+                let (v, _ev) = nd.succ[*k];
+                *k += 1;
+                if g.nodes[v as usize].goal {
+                    longest[u as usize] = longest[u as usize].max(1);
+                    continue;
+                }
+                match colour[v as usize] {
+                    0 => {
+                        colour[v as usize] = 1;
+                        stack.push((v, 0));
+                    }
+                    1 => {
+                        // back edge: cycle v -> ... -> u -> v
+                        let pos = stack.iter().position(|x| x.0 == v).unwrap();
+                        let mut cycle = vec![];
+                        let mut whys: Vec<&str> = vec![];
+                        for w in pos..stack.len() {
+                            let (a, ka) = stack[w];
+                            let ev = g.nodes[a as usize].succ[ka - 1].1;
+                            cycle.push(ev);
+                            whys.push(g.nodes[a as usize].why);
+                        }
+                        whys.sort();
+                        whys.dedup();
+                        let timed = cycle.iter().any(|e| matches!(e, Event::Tick));
+                        let (root, stem) = path_to(g, v);
+                        let sig = format!("never-reaches-goal|{}|{}|from={}", whys.join("+"), if timed { "time-advances" } else { "zero-time-message-loop" }, from(root));
+                        cases.push(Case { signature: sig, what: format!("a fault-free schedule from the {} state cycles through {} states none of which has one leader with everything committed ({})", from(root), cycle.len(), whys.join("+")), root, stem, cycle, kind: "cycle" });
+                    }
+                    _ => {
+                        longest[u as usize] = longest[u as usize].max(longest[v as usize] + 1);
+                    }
+                }
+            } else {
+                colour[u as usize] = 2;
+                let lu = longest[u as usize];
+                stack.pop();
+                if let Some(&(p, _)) = stack.last() {
+                    longest[p as usize] = longest[p as usize].max(lu + 1);
+                }
+            }
+        }
+    }
+    let max_steps = longest.iter().cloned().max().unwrap_or(0) as u64;
+    let goals = g.nodes.iter().filter(|x| x.goal).count() as u64;
+    (cases, goal_entries, max_steps, goals)
+}
+
+fn case_json(c: &Case, starts: &[Start]) -> Value {
+    json!({
+        "regime": "C30",
+        "kind": c.kind,
+        "base": starts[c.root as usize].base.iter().map(|e| e.to_text()).collect::<Vec<_>>(),
+        "stem": c.stem.iter().map(|e| e.to_text()).collect::<Vec<_>>(),
+        "cycle": c.cycle.iter().map(|e| e.to_text()).collect::<Vec<_>>(),
+        "expect_signature": c.signature,
+    })
+}
+
+/// re-execute a case on the real code; returns (still violates, log)
+fn replay_case(r: &Value) -> (bool, Vec<String>, Value) {
+    let evs = |x: &Value| -> Vec<Event> { x.as_array().map(|a| a.iter().map(|e| Event::parse(e.as_str().unwrap_or("")).unwrap_or_else(|| engine::machinery_failure("replay file: bad event"))).collect()).unwrap_or_default() };
+    let base = evs(&r["base"]);
+    let stem = evs(&r["stem"]);
+    let cycle = evs(&r["cycle"]);
+    let kind = r["kind"].as_str().unwrap_or("");
+    let w0 = Witness { regime: "C30", base: base.clone(), multiset: true, events: vec![], devs: vec![] };
+    let _ = w0;
+    let mut w = World::new(false);
+    let mut log = vec![];
+    for e in &base {
+        w.apply(*e).unwrap_or_else(|x| engine::machinery_failure(&format!("replay: base event {} refused: {x}", e.to_text())));
+    }
+    w.multiset = true;
+    w.net.sort_by(|a, b| a.enc.cmp(&b.enc));
+    let ba = w.appends;
+    let start_term = max_term(&w);
+    let mut line = |w: &World, e: &Event, phase: &str, log: &mut Vec<String>| {
+        let states: Vec<String> = (0..N)
+            .map(|i| {
+                let s = w.snap(i);
+                format!("{}:t{}:c{}", state_name(s.kind, s.payload), s.term, s.raft_commit)
+            })
+            .collect();
+        log.push(format!("{phase} t={} {} => {} goal={:?}", w.now, e.to_text(), states.join(" "), goal(w, ba)));
+    };
+    let mut all_non_goal_after_first = true;
+    let n_stem = stem.len();
+    for (k, e) in stem.iter().enumerate() {
+        w.apply(*e).unwrap_or_else(|x| engine::machinery_failure(&format!("replay: event {} refused: {x}", e.to_text())));
+        line(&w, e, "stem ", &mut log);
+        let _ = k;
+    }
+    let still = match kind {
+        "cycle" => {
+            w.ghost = Ghost::default();
+            let k0 = gkey(&w, ba);
+            let mut ok = goal(&w, ba).is_err();
+            for round in 0..2 {
+                for e in &cycle {
+                    w.apply(*e).unwrap_or_else(|x| engine::machinery_failure(&format!("replay: cycle event {} refused: {x}", e.to_text())));
+                    line(&w, e, if round == 0 { "cycle" } else { "again" }, &mut log);
+                    if goal(&w, ba).is_ok() {
+                        all_non_goal_after_first = false;
+                    }
+                }
+                w.ghost = Ghost::default();
+                if gkey(&w, ba) != k0 {
+                    ok = false;
+                }
+            }
+            ok && all_non_goal_after_first
+        }
+        "term-cap" => goal(&w, ba).is_err() && max_term(&w) > start_term + r["term_slack"].as_u64().unwrap_or(5),
+        "goal-left" => {
+            // the state before the last stem event must be a goal state and the state after it not
+            let mut v = World::new(false);
+            for e in &base {
+                v.apply(*e).unwrap();
+            }
+            v.multiset = true;
+            v.net.sort_by(|a, b| a.enc.cmp(&b.enc));
+            for e in &stem[..n_stem.saturating_sub(1)] {
+                v.apply(*e).unwrap();
+            }
+            goal(&v, ba).is_ok() && goal(&w, ba).is_err()
+        }
+        _ => engine::machinery_failure("replay file: unknown C30 case kind"),
+    };
+    (still, log, w.observe())
+}
+
+pub fn replay(_args: &Args, r: &Value) -> i32 {
+    let (still, log, obs) = replay_case(r);
+    for l in &log {
+        println!("{l}");
+    }
+    println!("final observation: {}", serde_json::to_string_pretty(&obs).unwrap());
+    if still {
+        println!("REPLAY-VIOLATION property=C30 signature={}", r["expect_signature"].as_str().unwrap_or(""));
+        1
+    } else {
+        println!("REPLAY property=C30 no violation on this trace");
+        0
+    }
+}
+
+pub fn run(args: &Args) -> i32 {
+    if let Some(path) = &args.replay {
+        return crate::explore::replay_file(args, path);
+    }
+    let report = Report::new(args, "model_checking");
+    let c = cfg(args.tier);
+    let t0 = std::time::Instant::now();
+    let mut starts = start_states(&c);
+    if let Some(n) = std::env::var("VERIF_C30_MAX_STARTS").ok().and_then(|s| s.parse::<usize>().ok()) {
+        starts.truncate(n);
+    }
+    let t_starts = t0.elapsed().as_secs_f64();
+    let g = engine::catch(|| build(&starts, &c)).unwrap_or_else(|p| engine::machinery_failure(&format!("panic while building the C30 graph: {} at {}", p.message, p.location)));
+    let t_build = t0.elapsed().as_secs_f64();
+    let (cases, goal_entries, max_steps, goals) = analyse(&g, &starts);
+    eprintln!("C30 starts={} states={} transitions={} goals={} signatures={} build={:.1}s total={:.1}s", starts.len(), g.nodes.len(), g.transitions, goals, cases.best.len(), t_build, t0.elapsed().as_secs_f64());
+
+    report.set("states", json!(g.nodes.len()));
+    report.set("transitions", json!(g.transitions));
+    report.set("traces_validated_against_impl", json!(goal_entries));
+    report.set("exhaustive", json!(!g.capped));
+    report.set("start_states", json!(starts.len()));
+    report.set("goal_states", json!(goals));
+    report.set("executions_reaching_goal", json!(goal_entries));
+    report.set("longest_fault_free_path_to_goal_steps", json!(max_steps));
+    report.set(
+        "bounds",
+        json!({"nodes": N, "quantum_ms": QUANTUM_MS, "election_factor_ms": ELECTION_FACTOR_MS, "heartbeat_ms": HEARTBEAT_MS, "term_timeout_ms": TERM_TIMEOUT_MS, "age_cap_ms": AGE_CAP_MS,
+               "max_client_appends_after_start": c.max_appends, "client_appends_during_partition": c.partition_appends, "term_cap_above_start": c.term_slack, "state_cap": c.state_cap}),
+    );
+    report.set("wall_start_states_s", json!(t_starts));
+    report.set("wall_graph_s", json!(t_build));
+    report.sample(json!({"start": "initial", "events": "every order of: Deliver(any in-flight message) | Proc(i) when due | Tick when the network is empty and nothing is due | Append(leader) while the budget lasts"}));
+    for s in starts.iter().skip(1).step_by((starts.len() / 3).max(1)).take(3) {
+        report.sample(json!({"start": "post-partition", "prefix": s.base.iter().map(|e| e.to_text()).collect::<Vec<_>>()}));
+    }
+    report.assume("healthy = every message is delivered before the clock advances; a due process() cannot be postponed past a clock tick; 3 nodes; quantum 500 ms");
+    report.assume("the ghost variables are not part of the C30 state; the state additionally records how many client appends preceded the start state");
+    report.assume("client appends during the fault-free phase happen only while exactly one node is in state Leader");
+
+    for (case, count) in cases.best.values() {
+        let mut j = case_json(case, &starts);
+        j["term_slack"] = json!(c.term_slack);
+        let a = replay_case(&j);
+        let b = replay_case(&j);
+        if a.0 != b.0 || a.1 != b.1 {
+            engine::machinery_failure(&format!("C30 replay of {} is not deterministic", case.signature));
+        }
+        if !a.0 {
+            engine::machinery_failure(&format!("C30 case {} does not reproduce outside the explorer", case.signature));
+        }
+        j["steps"] = json!(a.1);
+        j["observation"] = a.2;
+        report.violation(&case.signature, &case.what, j);
+        for _ in 1..*count {
+            report.violation(&case.signature, &case.what, Value::Null);
+        }
+    }
+    report.finish()
 }
